@@ -708,7 +708,7 @@ theorem fstep_other {d : Db} {op : Op} (hf : forestOp op = none) : FStep d op :=
     · have he' : plExists d c = false := by simpa using he
       exact .throws (exn "crate_deleted") (by simp [step, he']) hvac
   | removeTrackFrom c t =>
-    cases hg : peGet d c t with
+    cases hg : peFind d c t 0 with
     | some e => exact .okN none (by simp [step, hg]) hf (by simp [step, hg]) (by simp [step, hg])
     | none => exact .okN none (by simp [step, hg]) hf (by simp [step, hg]) (by simp [step, hg])
   | clearTracks c => exact .okN none rfl hf rfl rfl
